@@ -23,6 +23,13 @@ Lemma val_fun init i v1 v2 : val init i v1 -> val init i v2 -> v1 = v2.
 Proof. intros H1; revert v2; induction H1 as [i Hp|i v Hn H IH]; intros v2 H2; inversion H2; subst; try congruence.
   f_equal. apply IH. assumption. Qed.
 
+Lemma val_inv_pit init i v : val init i v -> dsf i = i -> v = f i (nth i init d) (nth i init d).
+Proof. intros H Hp. inversion H; subst; auto. contradiction. Qed.
+
+Lemma val_inv_step init i v : val init i v -> dsf i <> i ->
+  exists v', val init (dsf i) v' /\ v = f i v' (nth i init d).
+Proof. intros H Hp. inversion H; subst; [contradiction|]. eauto. Qed.
+
 Lemma sweep_down_length seq init : length (sweep_down seq init) = length init.
 Proof. unfold sweep_down. revert init; induction seq as [|x s IH]; intros; simpl; auto.
   rewrite IH. unfold dstep. apply upd_length. Qed.
